@@ -73,13 +73,15 @@ def C07(tier):
     hs = [
         Harness("h_reset::reset_cpu", key="reset.cpu", domain=arb),
         Harness("h_reset::reset_master", key="reset.master", domain=arb),
-        Harness("h_reset::load_image_le4", key="load", domain=arb + "; program image symbolic, length 0..4, limits symbolic", bounds="image <= 4 bytes, unwind 10"),
-        Harness("h_reset::load_image_le8", key="load", tier="thorough", timeout=1500, domain=arb + "; image length 0..8", bounds="image <= 8 bytes"),
-        Harness("h_reset::load_image_le16", key="load", tier="thorough", timeout=2400, domain=arb + "; image length 0..16", bounds="image <= 16 bytes"),
+        Harness("h_reset::load_image_n0", key="load", domain=arb + "; empty image, limits symbolic", bounds="image length 0"),
+        Harness("h_reset::load_image_n3", key="load", domain=arb + "; 3 symbolic image bytes, limits symbolic", bounds="image length 3, unwind 242"),
+        Harness("h_reset::load_image_n1", key="load", tier="thorough", timeout=1500, domain=arb + "; 1 image byte", bounds="image length 1"),
+        Harness("h_reset::load_image_n8", key="load", tier="thorough", timeout=1500, domain=arb + "; 8 image bytes", bounds="image length 8"),
+        Harness("h_reset::load_image_n16", key="load", tier="thorough", timeout=2400, domain=arb + "; 16 image bytes", bounds="image length 16"),
     ]
     return dict(
         harnesses=hs,
-        bounds="resets: none. load: image length <= 4 (quick) / 16 (thorough) bytes in one line; longer images and multi-line programs outside",
+        bounds="resets: none. load: image lengths 0 and 3 (quick), 1, 8, 16 (thorough), concrete per harness, bytes symbolic, one-line ByteCode; longer images and multi-line programs outside",
         assumptions=["cycle-for-cycle equality after load follows from full hidden-state equality with a new machine plus determinism "
                      "of trigger_clock_edge (a &mut RawMachine method: it cannot read the step mode or anything outside the state compared)",
                      "MISR/USR/UART receive byte are not reset by anything and not compared (not readable by a RAM/FC-FF program)"],
@@ -176,6 +178,8 @@ def _dom(m):
         return ("boundary state at a fetch word, everything symbolic (R0-R7, flags, stale IR, pending commit, latch, flip-flop, wait, "
                 "240 RAM bytes, all I/O registers, arbitrary board, limits); %s; micro path %s [%s]"
                 % (op, " ".join("%03X" % a for a in m["path"]), ",".join(m["labels"])))
+    if m["kind"] == "fetch-equiv":
+        return "fetch word %03X has a different content than the representative 006: same successor state from an arbitrary state" % m["path"][0]
     if m["kind"] == "second":
         b = m["bytes"]
         return ("arbitrary state at the second-byte fetch word 0x1E6 (R6 = source value, symbolic); second byte 0x%02X..0x%02X; "
@@ -195,7 +199,7 @@ def _path_harnesses(kind, quick_re):
             continue
         if m["kind"] == "int-entry":
             continue
-        quick = bool(quick_re.match(fn))
+        quick = bool(quick_re.match(fn)) or m["kind"] == "fetch-equiv"
         key = "%s.%s" % ("isa" if kind == "arch" else "cycles", m["cls"])
         hs.append(Harness("gen::paths::" + fn, key=key, domain=_dom(m), timeout=2400 if not quick else 1500,
                           tier="quick" if quick else "thorough",
@@ -561,6 +565,14 @@ def C11(tier):
                     bounds="a step of at most %d clock edges; unwind 18" % kk)
         h.custom_confirm = sweep
         hs.append(h)
+    for kk, tr, tmo in ((100, "quick", 1500), (560, "thorough", 10800)):
+        h = Harness("h_asm::asm_step_long_k%d" % kk, key="asm-step.equiv", timeout=tmo, tier=tr,
+                    domain="the clock edge replaced by a counter automaton (boundary until edge LEAVE, inside an instruction until edge BACK, "
+                           "optional halt at edge HALT, start phase c0; all symbolic): the step must stop exactly at min(halt, BACK); covers steps "
+                           "of up to %d edges (the longest real step, DIV with quotient 255, is < 530 edges)" % kk,
+                    bounds="a step of at most %d clock edges; unwind %d" % (kk, kk + 5))
+        h.custom_confirm = sweep
+        hs.append(h)
 
     def post(results):
         gc, err = _safe_gen()
@@ -601,9 +613,9 @@ def C11(tier):
         return {"evidence": ev, "violations": viol, "inconclusive": inconc, "known_hits": hits}
     return dict(
         harnesses=hs + SEQ_H, kani_extra=[["-Z", "stubbing"]], generators=[lambda: _safe_gen()], post=post,
-        bounds="equivalence: steps of at most 6 (quick) / 12 (thorough) clock edges, for an arbitrary deterministic edge function; longest "
-               "instruction incl. waits outside MUL/DIV is 8 micro-steps + 5 waits = 13 edges, MUL/DIV longer: those steps are outside the "
-               "bound; termination: from the sequencer graph (all 256 first bytes, all inputs) + MUL/DIV ranking (C09)",
+        bounds="equivalence: steps of at most 6 (quick) / 12 (thorough) clock edges for an arbitrary deterministic edge function (16 abstract "
+               "states), and steps of at most 100 (quick) / 560 (thorough) edges for a counter-shaped edge function (leave/back/halt positions and "
+               "start phase symbolic); the longest real step (DIV, quotient 255) is < 530 edges; termination: from the sequencer graph (all 256 first bytes, all inputs) + MUL/DIV ranking (C09)",
         stubs=[NOLOG, "RawMachine::trigger_clock_edge -> arbitrary deterministic automaton (kani::stub): the stepping loop is checked against "
                       "every possible behaviour of the edge; the edge itself is C01/C05/C09's subject"],
         assumptions=["step mode is not an input of the clock edge: trigger_clock_edge is a method of RawMachine, which does not contain the step mode (type-level fact)",
